@@ -891,7 +891,10 @@ def copy_propagate(fn, max_expr=40):
 PURE_CALLS = {'iv_list_empty', 'iv_get_state', 'pthr_self', 'pthreads_available', 'is_mt_app', 'getpid', '__errno_location',
               'iv_tls_user_ptr', '__iv_tls_user_ptr', 'iv_get_thread_id', 'timespec_gt', 'timer_ptr_gt', 'strcmp', 'strerror',
               'iv_avl_tree_empty', 'iv_avl_tree_min', 'iv_avl_tree_max', 'iv_avl_tree_next', 'iv_avl_tree_prev', 'height', 'balance',
-              '___mutex_lock', '___mutex_unlock', 'spin_lock', 'spin_unlock', 'iv_fatal', 'abs', 'fprintf', 'perror', 'snprintf'}
+              'iv_fatal', 'abs', 'fprintf', 'perror', 'snprintf'}
+# lock/unlock are deliberately NOT pure: they are memory barriers with respect to other threads, so a
+# local that caches a shared field across them is not the same as re-reading the field (and rewriting
+# the read of the local into a read of the field would invent an unsynchronised access)
 
 
 
